@@ -96,6 +96,7 @@ def _alph(tier):
 
 def bounds(tier, seed):
     b = _alph(tier)
+    b["run_histories"] = "all ordered pairs of 8 runs differing in register / SLM mask / DMM / user matrix / cutoff / drive, executed back to back in one process"
     b["extra"] = "modulated-device block (dev=mod, with_modulation on/off) and, in thorough, 6- and 10-atom chains once per drive"
     return b
 
@@ -114,6 +115,26 @@ def _mk(shape, drive, phase, dmm, slm, dev, mod, dt, ev, tol, init, seed, coords
     elif init == "seeded":
         cfg["init"] = "seeded"
     return {"spec": spec, "cfg": cfg, "label": f"{shape}/{drive}/ph{phase:.2f}/dmm{dmm}/slm{slm}/{dev}/mod{int(mod)}"}
+
+
+def _history_alphabet(seed):
+    out = [
+        _mk("pair", "const", 0.7, 0, 0, "mock", False, 10, [0.37, 1.0], 1e-10, None, seed),
+        _mk("pair", "const", 0.7, 0, 1, "mock", False, 10, [0.37, 1.0], 1e-10, None, seed),
+        _mk("pair", "twophase", 0.0, 1, 0, "mock", False, 10, [0.37, 1.0], 1e-10, None, seed),
+        _mk("bent3", "const", 0.7, 0, 0, "mock", False, 10, [0.37, 1.0], 1e-10, None, seed),
+        _mk("bent3", "const", 0.7, 0, 3, "mock", False, 10, [0.37, 1.0], 1e-10, None, seed),
+        _mk("tri3", "const", 0.7, 0, 0, "mock", False, 10, [0.37, 1.0], 1e-10, None, seed),
+    ]
+    c = _mk("bent3", "const", 0.7, 0, 0, "mock", False, 10, [0.37, 1.0], 1e-10, None, seed)
+    c["cfg"]["interaction_matrix"] = [[0.0, 0.0, 7.0], [0.0, 0.0, 3.0], [7.0, 3.0, 0.0]]
+    c["label"] += "/custom-sparse"
+    out.append(c)
+    c = _mk("bent3", "const", 0.7, 0, 0, "mock", False, 10, [0.37, 1.0], 1e-10, None, seed)
+    c["cfg"]["interaction_cutoff"] = 10.0
+    c["label"] += "/cutoff10"
+    out.append(c)
+    return out
 
 
 def cases(tier, seed):
@@ -142,6 +163,15 @@ def cases(tier, seed):
             c["cfg"]["interaction_matrix"] = [[0.0, 0.0, 7.0], [0.0, 0.0, 3.0], [7.0, 3.0, 0.0]]
             c["label"] += "/custom-sparse"
             yield c
+    # run histories (E2): run A, then run B in the same process; B is judged against its own oracle.  All ordered pairs of an alphabet of runs that
+    # differ in one feature each (register, SLM mask, DMM, user matrix, cutoff, drive): nothing an earlier run computed may reach a later one
+    hist = _history_alphabet(seed)
+    for i, a in enumerate(hist):
+        for j, b in enumerate(hist):
+            if i != j:
+                c = dict(b, after={"spec": a["spec"], "cfg": a["cfg"]})
+                c["label"] = b["label"] + " after " + a["label"]
+                yield c
     if tier == "quick":
         # one loose-tolerance run with an SLM mask: exercises the recorded Krylov-accuracy finding in the quick tier as well
         yield _mk("pair", "blackman", 0.0, 0, 1, "mock", False, 3, [1.0], 1e-6, None, seed)
@@ -208,6 +238,11 @@ def run_case(case):
     spec, cfg = case["spec"], case["cfg"]
     n = len(spec["coords"])
     key = json.dumps({"spec": spec, "cfg": {k: v for k, v in cfg.items() if k != "krylov_tolerance"}}, sort_keys=True)
+    if case.get("after"):
+        try:
+            runner.run_sv(case["after"]["spec"], case["after"]["cfg"])
+        except Exception:
+            pass  # the earlier run is judged in its own case
     try:
         results, seq = runner.run_sv(spec, cfg)
     except Exception as e:  # the backend accepted nothing: a noiseless rydberg sequence must run
